@@ -66,6 +66,13 @@ def main():
     rc, out = sh(f"git -C /repo worktree add -q --detach {wt} HEAD")
     try:
         rc, out = sh(["git", "apply", patch], cwd=wt)
+        if rc != 0:
+            # the patch was written against an earlier HEAD of the repository (a fix: commit landed since):
+            # three-way apply, then unstage so that the work tree alone carries the change
+            rc, out2 = sh(["git", "apply", "--3way", patch], cwd=wt)
+            sh(["git", "reset", "-q"], cwd=wt)
+            res["applied_3way"] = rc == 0
+            out += out2
         res["applies"] = rc == 0
         if rc != 0:
             res["error"] = out[-500:]
@@ -87,6 +94,10 @@ def main():
     res["confirmed"] = all(res.get(k) for k in ("applies", "builds", "tests_pass", "demo_fails_with_change", "demo_passes_without"))
     # run the checks against it
     rc, out = sh(["git", "-C", REPO, "apply", patch])
+    if rc != 0:
+        rc, out2 = sh(["git", "-C", REPO, "apply", "--3way", patch])
+        sh(["git", "-C", REPO, "reset", "-q"])
+        out += out2
     if rc != 0:
         res["error"] = "does not apply to the repo: " + out[-300:]
         return res
